@@ -20,7 +20,7 @@ def ref_pupil(W, I, N):
     """Complex pupil from sampled OPD (waves) and intensity on the uniform N x N grid, by the documented rule."""
     g = np.linspace(-1, 1, N)
     X, Y = np.meshgrid(g, g)
-    inside = (np.sqrt(X ** 2 + Y ** 2) <= 1).ravel()
+    inside = (X ** 2 + Y ** 2 <= 1).ravel()        # the sample set of the 'uniform' distribution that carries W and I
     P = np.zeros(N * N, dtype=complex)
     amp = I / np.mean(I)
     P[inside] = amp * np.exp(2j * np.pi * W)
@@ -63,10 +63,10 @@ class C11(Check):
 
     def strategy(self, tier):
         if tier == 'quick':
-            N = st.sampled_from([16, 20, 24, 32, 33, 48, 64])
+            N = st.one_of(st.sampled_from([16, 20, 24, 32, 33, 48, 64]), st.integers(16, 64))
             G = st.sampled_from([64, 65, 96, 128, 129, 256, 257])
         else:
-            N = st.sampled_from([16, 24, 32, 33, 64, 100, 128, 129, 200, 256])
+            N = st.one_of(st.sampled_from([16, 24, 32, 33, 64, 100, 128, 129, 200, 256]), st.integers(16, 256))
             G = st.sampled_from([64, 65, 128, 129, 256, 500, 512, 1000, 1024, 1025, 2048])
         return st.fixed_dictionaries(dict(spec=GL.lens_spec(IMG, min_surfs=2), N=N, G=G, fld=st.integers(0, 5),
                                           defocus=st.one_of(st.just(0.0), f(-1.0, 1.0)), clip=st.booleans(),
